@@ -449,7 +449,7 @@ void run_simple_op0(Op const &op)
     }
 #endif
     s.tls_sent.emplace_back(static_cast<size_t>(a1), '\0');
-    while(s.tls_sent.size() > (tls ? 2u : 1u)) s.tls_sent.pop_front();
+    while(s.tls_sent.size() > (tls ? 256u : 1u)) s.tls_sent.pop_front();   // TLS: the library keeps a view of unsent data across calls
     std::string &data = s.tls_sent.back();
     vos::fill(2ull * s.fd, tls ? S.plain_out[s.fd] : S.out_pos[s.fd], data.data(), data.size());
     api(opc, [&]() -> V {
